@@ -117,6 +117,30 @@ def gen_core_case(r, faults=False):
     ops = gen_ops(r, n, has_seek)
     return vfmt([data, rplan, splan, kplan, int(has_skip), int(has_seek), ops])
 
+def gen_seekskip_case(r, faults=False):
+    """client with a seek callback and no skip callback, stream larger than 64 KiB: consume() of more than
+    64 KiB goes through the seeker-as-skipper branch of client_skip_proxy; requests inside, ending exactly at and
+    reaching beyond the end of the stream"""
+    n = r.choice([65537, 66000, 70000, 131073, 200000])
+    data = bytes((i * 7 + 13 * (i >> 8)) & 0xff for i in range(n))
+    rplan = [[0, r.choice([1000, 4096, 10240, 65536, 70000])]] * 4 + [[0, r.choice([512, 4096, 65536])]] * 40
+    ops, pos = [], 0
+    for _ in range(r.randrange(2, 7)):
+        left = n - pos
+        c = r.random()
+        if c < 0.35:
+            ops.append([0, r.choice([1, 2, 100, 512])])
+        else:
+            k = r.choice([65537, 65536, 66000, left, left - 1, left + 1, left + 70000, 70000, 1000])
+            if k < 0:
+                k = 0
+            ops.append([1, k])
+            pos = min(n, pos + k) if k <= left else n
+    kplan = []
+    if faults and r.random() < 0.6:
+        kplan = [[0]] * r.randrange(0, 5) + [[1, r.choice([-1, -25, -30])]]
+    return vfmt([data, rplan, [], kplan, 0, 1, ops])
+
 def core_oracle_c01(case_line, impl_line):
     """memory/abstraction safety of the core evaluated on the real outputs alone: every window is
     exactly the stream at the reported position, at least min long; results lie in the documented
